@@ -259,12 +259,14 @@ def custom(ctx):
 
 SPEC = {
     "id": "C15",
-    "gens": ["Reserved"],
-    "lean_modules": ["RsslVerif.Thm.C15"],  # imports Lemmas.Names, Lemmas.NamesOrder, Lemmas.NamesTables (decide facts, cached)
+    "gens": ["Reserved", "UsageOperands", "UsageTables"],  # UsageTables: tools/gens/c02.py (exprArms, symbolInserts)
+    "lean_modules": ["RsslVerif.Thm.C15", "RsslVerif.Thm.C15Usage"],  # imports Lemmas.Names, Lemmas.NamesOrder, Lemmas.NamesTables (decide facts, cached)
     "theorems": [T + n for n in [
         "source_fingerprints", "reserved_complete", "build_scope_order_independent", "never_reserved",
         "injective_per_scope", "verbatim", "renaming_equivariant_partial", "locals_apart_from_used",
         "scope_loop_terminates",
+        # the usage analysis that feeds build sees a symbol wherever its use sits (Thm/C15Usage.lean; gap C15-7)
+        "usage_visits_all_operands", "used_symbols_include_index_positions", "locals_apart_from_mentioned",
         # the emitted program (Model/NamesEmit: how both exporters consume the map)
         "emitted_never_reserved", "emitted_injective_file_scope", "flat_used_name_unique",
         # identifiers the exporters introduce themselves (implicit wave parameters, stage locals, wrapper names)
